@@ -244,3 +244,53 @@ def check(case: dict) -> dict:
 
 
 ENGINES = [Engine('histories', cases, check, quick=120, thorough=5000, batch=100, thorough_s=1200.0)]
+
+
+# ---------------------------------------------------------------------------- the same clause at the level of the Adj-RIB-Out
+#
+# C04's driver (a real OutgoingRIB, every emitted UPDATE applied to a model peer) with one more operation: the session is lost
+# - at any point, also while an update generator is half consumed - and established again, the way Peer._reset and Peer._main
+# drive the RIB (RIB.reset, then replace_restart, then a first generator without withdraws).  At every quiescent point the table
+# the peer rebuilt from the bytes must be the Adj-RIB-Out and must be what the last announce / withdraw of each route asked for.
+# Thousands of histories per minute, where the engine above (whole reactor, sockets, virtual clock) does a hundred.
+
+
+@st.composite
+def rib_cases(draw):
+    from props import c04
+
+    case = draw(c04.cases())
+    if not case['session'].get('cache', True):
+        case['session']['cache'] = True  # without an Adj-RIB-Out nothing is kept for a new session (documented: see DESIGN 5)
+    ops = [list(o) for o in case['ops']]
+    for _ in range(draw(st.sampled_from([1, 1, 2, 3]))):
+        ops.insert(draw(st.integers(0, len(ops))), ['session_loss'])
+    case['ops'] = ops[:60]
+    if not any(o[0] == 'session_loss' for o in case['ops']):
+        case['ops'].append(['session_loss'])
+    return case
+
+
+def check_rib(case: dict) -> dict:
+    from props import c04
+
+    try:
+        info = c04.check(case)
+    except Violation as v:
+        raise Violation('rib-resync:' + v.signature, v.message) from None
+    info['classes'] = ['rib-level'] + list(info.get('classes', []))
+    info['nontrivial'] = True
+    return info
+
+
+def rib_fixed() -> list:
+    plain = {'addpath': False, 'group': True, 'first': True}
+    return [
+        {'session': plain, 'ops': [['announce', 0, 0, 0, 0, 0], ['begin'], ['finish'], ['withdraw', 0, 0, 0, 0], ['announce', 0, 0, 0, 0, 0], ['withdraw', 0, 0, 0, 0], ['session_loss']]},
+        {'session': plain, 'ops': [['announce', 0, 0, 0, 0, 0], ['announce', 1, 1, 0, 0, 0], ['begin'], ['session_loss'], ['withdraw', 1, 0, 0, 0]]},
+        {'session': plain, 'ops': [['announce', 2, 0, 0, 0, 0], ['session_loss'], ['announce', 2, 1, 0, 0, 0], ['session_loss']]},
+        {'session': {'addpath': True, 'group': False, 'first': True}, 'ops': [['announce_wd', 0, 0, 0, 0, 0, 0, False], ['begin'], ['finish'], ['withdraw_watchdog', 0], ['session_loss'], ['announce_watchdog', 0]]},
+    ]
+
+
+ENGINES.append(Engine('rib-histories', rib_cases, check_rib, quick=400, thorough=12000, batch=200, fixed_cases=rib_fixed, thorough_s=900.0))
